@@ -6,6 +6,12 @@
 # Changes that no longer apply / no longer break the property go to /verif/seeded/_retired/.
 # Each lane owns one scratch worktree /tmp/reseed-lane<k> (removed at the end) and whole property ids.
 LANES=${1:-4}; shift
+# the machinery is run from a snapshot of /verif (taken now), so that /verif can be edited while this runs;
+# only seeded/<id>/<name>/meta.json is written back into /verif
+SNAP=/tmp/verif-snap
+rm -rf $SNAP; mkdir -p $SNAP
+rsync -a --exclude work --exclude replay --exclude seeded --exclude .git /verif/ $SNAP/
+export VERIF_ROOT=$SNAP
 IDS="$@"; [ -z "$IDS" ] && IDS=$(ls /verif/seeded | grep '^C[0-9]')
 export GOFLAGS=-mod=mod GOPROXY=off GOTOOLCHAIN=auto
 HEAD=$(git -C /repo rev-parse HEAD)
@@ -25,7 +31,7 @@ lane() {
       for f in $D/demo*_test.go.txt; do [ -f "$f" ] && cp $f $M/$(basename $f .txt); done
       [ -f $D/demo_main.go.txt ] && { mkdir -p $M/demo; cp $D/demo_main.go.txt $M/demo/main.go; }
       [ -d $D/demo ] && cp -r $D/demo $M/demo
-      conf=$(SCRATCH_CONFIRM=$S /verif/tool/confirm_mut.sh $ID $M)
+      conf=$(SCRATCH_CONFIRM=$S $SNAP/tool/confirm_mut.sh $ID $M)
       case "$conf" in
         *"APPLY=yes BUILD=yes SUITE_EXTRA_FAILS=0 DEMO_CLEAN_RC=0 DEMO_MUT_RC=1"*) ;;
         *) mkdir -p /verif/seeded/_retired/$ID; rm -rf /verif/seeded/_retired/$ID/$name; mv $D /verif/seeded/_retired/$ID/$name
@@ -33,13 +39,13 @@ lane() {
            echo "retired (at $HEAD): $conf" >> /verif/seeded/_retired/$ID/$name/RETIRED.txt
            echo "$ID/$name RETIRED: $conf"; continue;;
       esac
-      SCRATCH_TREE=$S MUTEST_TAG=lane$k /verif/tool/mutest.sh $ID $D/patch.diff quick > /tmp/reseed.$ID.$name.out 2>&1; rc=$?
+      SCRATCH_TREE=$S MUTEST_TAG=lane$k $SNAP/tool/mutest.sh $ID $D/patch.diff quick > /tmp/reseed.$ID.$name.out 2>&1; rc=$?
       python3 - "$ID" "$name" "$D" "$rc" "$conf" "$HEAD" <<'PY'
 import sys,json,os,re
 pid,name,d,rc,conf,head=sys.argv[1:7]
 out=open('/tmp/reseed.%s.%s.out'%(pid,name)).read()
 keys=[]
-kf='/verif/work/last-violation-keys-%s.txt'%pid
+kf=os.environ.get('VERIF_ROOT','/verif')+'/work/last-violation-keys-%s.txt'%pid
 if os.path.exists(kf) and int(rc)==1:
     keys=[l.strip().replace('\t',' :: ') for l in open(kf).read().splitlines()[:6]]
 mp=os.path.join(d,'meta.json')
@@ -65,4 +71,4 @@ for k in $(seq 0 $((LANES-1))); do
   [ -n "${L[$k]}" ] && lane $k ${L[$k]} > /tmp/reseed.lane$k.log 2>&1 &
 done
 wait
-cat /tmp/reseed.lane*.log
+cat /tmp/reseed.lane*.log; rm -rf $SNAP
